@@ -156,11 +156,19 @@ fn select_by_path_from_canon_map(
 
     // There will be an empty canon stream if the key was not found.
     let result = match (NonEmpty::try_from(body.to_vec()), canon_stream) {
-        (Ok(body_part), Some(canon_stream)) => {
-            // csm.$.key... case
+        (Ok(body_part), canon_stream) => {
+            // csm.$.key... case; the rest of the path is applied to an empty canon stream
+            // if the key was not found
 
-            let canon_stream_iter = canon_stream.iter().map(|v| (v.get_result().clone(), v.get_tetraplet()));
-            select_by_path_from_canon_map_stream(canon_stream_iter, &body_part, exec_ctx)?
+            let canon_stream_values = canon_stream
+                .map(|canon_stream| {
+                    canon_stream
+                        .iter()
+                        .map(|v| (v.get_result().clone(), v.get_tetraplet()))
+                        .collect::<Vec<_>>()
+                })
+                .unwrap_or_default();
+            select_by_path_from_canon_map_stream(canon_stream_values.into_iter(), &body_part, exec_ctx)?
         }
         (Err(..), Some(canon_stream)) => {
             // csm.$.key case
